@@ -12,7 +12,7 @@ AllDefects == Defects
 
 Containers == {"struct", "seqof", "setof", "explicit", "optional"}
 Wraps1 == {<<w>> : w \in Containers}
-Wraps2 == Wraps1 \cup {<<a, b>> : a \in Containers, b \in Containers}
+Wraps2 == {<<a, b>> : a \in Containers, b \in Containers}
 
 \* the type catalogue (plain and inside every container) is printed once
 ASSUME \A s \in ShapeNames : \A w \in {x \in Wraps \cup {<<>>} : WrapAllOK(x, Shapes[s])} :
